@@ -25,8 +25,10 @@ Property theorems only.  Glue: `H3.E2E` (`Model/E2E.lean`) — `Message`, `wire`
 Assumptions that stay (each explicit in the statements): the `http` crate parameter `H` with the
 round-trip facts `PseudoBack` (and `HttpRoundTrip` for "same scheme/authority/path"); R-14 (calls
 awaited: `Awaited`); R-T (transport chunks non-empty, a delivery that arrives after a poll shows as
-`pend` in the script); the receiver's `max_field_section_size` (C10) and — a limit of the code, see
-`C01_field_count_refused` — at most 24576 fields per section. -/
+`pend` in the script); the receiver's `max_field_section_size` (C10); a message the sender's own
+`http::HeaderMap` can hold (`Holdable`: at most 24576 distinct names, any number of values — the
+receiver's map has the same limit, `C01_field_count_refused`; the number of fields is no limit any
+more: D-01, repaired). -/
 namespace H3.Props.C01
 open H3.E2E H3.Headers H3.FS H3.ReqRecv H3.WriteBuf H3.SendSide H3.Gen.WriteBuf
 open H3.Spec.Framing (observe Ending)
@@ -135,23 +137,19 @@ theorem C01_wire_is_valid_message (m : Message) (h : Header) (hwf : WellFormed m
 
 /-! ## 3. every chunking of the wire is delivered exactly -/
 
-/-  Full statement (not provable for the code as it is): as `C01_recv_of_wire_partial` without the
-    hypothesis `Fits.count` / `Fits.trailerCount`.  `C01_field_count_refused` below shows why it
-    fails: the receiver sizes its `HeaderMap` for the number of *all* fields of the section, pseudo
-    ones included, and refuses a section of more than 24576 fields — which a sender can build (a
-    `HeaderMap` holds any number of values under one name). -/
-
-/-- **`recv_of_wire`.**  Let `m` be a well-formed message whose head survives the trip
-    (`HeadOk`: the `http` round-trip assumptions, with `out` the head the application must get),
-    within the receiver's limits (`Fits`: `max_field_section_size = L`, field count).  For EVERY
+/-- **`recv_of_wire`.**  Let `m` be a well-formed message — which includes that the sending
+    application could hold its fields in an `http::HeaderMap` at all (`WellFormed.holdable`) — whose
+    head survives the trip (`HeadOk`: the `http` round-trip assumptions, with `out` the head the
+    application must get), within the receiver's `max_field_section_size = L` (`Fits`).  For EVERY
     transport script that carries exactly the stream bytes of `m` before its first FIN — cut into
     non-empty chunks in any way, `pend` (a poll that found nothing) anywhere, no reset — the
     documented receive pattern with every call awaited (`resolve_request` / `recv_response`;
     `recv_data` until `None`; `recv_trailers`) delivers: the head `out`; as body exactly the
     concatenation of the pieces sent; exactly one clean end of body (`ends = 1`, and it is the
     last answer of `recv_data`); the trailers as the map the sender filled, or `None` when none
-    were sent; the error cell empty, nothing reset, nothing stopped. -/
-theorem C01_recv_of_wire_partial (H : Http) (role : Role) (m : Message) (h : Header) (out : HeadOut)
+    were sent; the error cell empty, nothing reset, nothing stopped.  The number of fields of a
+    section is not limited (D-01, repaired). -/
+theorem C01_recv_of_wire (H : Http) (role : Role) (m : Message) (h : Header) (out : HeadOut)
     (L : Nat) (hwf : WellFormed m h) (hfit : Fits m h L) (hhead : HeadOk H role m out)
     (g : Option Nat) (hg : ∀ n, g = some n → n < GREASE_RANGE_END)
     (script : List Ev) (hsc : ScriptOK script) (hnr : NoReset script) (hfin : hasFin script = true)
@@ -161,18 +159,36 @@ theorem C01_recv_of_wire_partial (H : Http) (role : Role) (m : Message) (h : Hea
         trailers := some (m.trailers.map mapOf), env := {} } :=
   deliver_streamBytes H role m h out L hwf hfit hhead g hg script hsc hnr hfin hbytes
 
-/-- The limit behind `Fits.count` is the code's, not the proof's: a field section of more than
-    24576 fields is refused by `Header::try_from` (`InvalidRequest`, H3_MESSAGE_ERROR on the
-    stream) whatever it contains — also when it is a well-formed message that h3 itself sent.
-    (Shown on the real code: `hdr req` with the four request pseudo fields and `x=y*24573`
-    answers `reject InvalidRequest`, with `*24572` it is accepted.) -/
-theorem C01_field_count_refused (H : Http) (fs : List FieldLine) (h : 24576 < fs.length) :
-    recvRequest H fs = .err .invalidRequest ∧ recvResponse H fs = .err .invalidRequest ∧
-    recvTrailers H fs = .err .invalidRequest := by
-  have hc : capacityOverflow fs.length = true := by
-    simp only [capacityOverflow, decide_eq_true_eq]; omega
-  have hm : H3.Gen.Headers.mapFallible = true := rfl
-  simp [recvRequest, recvResponse, recvTrailers, tryFrom, hc, hm, Res.bind]
+/-- The one limit that remains is `http::HeaderMap`'s, and it is the same on both sides: fields with
+    more than 24576 distinct names (`ns`) cannot be held by the sending application's own map
+    (`Holdable` fails, whatever the order of its `append`s), and a section that carries them as
+    regular fields is refused by the receiver's `Header::try_from` (a `HeaderError`:
+    H3_MESSAGE_ERROR on the stream, no panic) — so no message the property speaks of is lost to it.
+    (Before the repair of D-01 the receiver refused every section of more than 24576 *fields*.) -/
+theorem C01_field_count_refused (H : Http) (ns : List (List Nat)) (hnd : ns.Nodup)
+    (hlen : hmMaxEntries < ns.length) :
+    (∀ l : List FieldLine, (∀ n ∈ ns, ∃ v, (n, v) ∈ l) → ¬ Holdable l) ∧
+    (∀ fs : List FieldLine, (∀ n ∈ ns, ¬ H3.Spec.Headers.IsPseudo n ∧ ∃ v, (n, v) ∈ fs) →
+      (∃ e, recvRequest H fs = .err e) ∧ (∃ e, recvResponse H fs = .err e) ∧
+      (∃ e, recvTrailers H fs = .err e)) := by
+  refine ⟨?_, fun fs hocc => (H3.Props.C12.C12_map_capacity H fs).2.2.2 ns hnd hlen hocc⟩
+  intro l hocc hhold
+  obtain ⟨_, hc⟩ := holdable_tight hhold
+  have hsub : ∀ n ∈ ns, n ∈ (mapOf l).map (·.1) := by
+    intro n hn
+    obtain ⟨v, hv⟩ := hocc n hn
+    apply Classical.byContradiction
+    intro hnot
+    have hg := hmGroup_foldl n l []
+    rw [← mapOf_eq, hmGroup_nil_of_not_mem _ _ hnot] at hg
+    have : v ∈ (l.filter (fun f => f.1 = n)).map (·.2) :=
+      List.mem_map.mpr ⟨(n, v), by simp [List.mem_filter, hv], rfl⟩
+    simp only [hmGroup, List.nil_append] at hg
+    rw [← hg] at this
+    cases this
+  have := nodup_subset_length ns _ hnd hsub
+  simp only [List.length_map] at this
+  omega
 
 /-- **Same method, scheme, authority and path; same values in the same per-name order.**  What
     `HeadOk` hands over, spelled out.  Requests: the method is the sender's; under the round-trip
@@ -244,9 +260,8 @@ theorem C01_pseudo_back_of_laws (H : Http) (L : HttpLaws H) (R : HttpRoundTrip H
     the documented pattern.  Then the receiving application is handed the head `out` (same method,
     scheme, authority, path / same status: `C01_delivered_parts`), the header values in the same
     per-name order, the identical body byte sequence, the same trailers, and exactly one clean end;
-    no error is recorded on either side.  (`_partial`: at most 24576 fields per section, see
-    `C01_field_count_refused`.) -/
-theorem C01_end_to_end_partial (H : Http) (role : Role) (m : Message) (h : Header) (out : HeadOut)
+    no error is recorded on either side. -/
+theorem C01_end_to_end (H : Http) (role : Role) (m : Message) (h : Header) (out : HeadOut)
     (L : Nat) (hwf : WellFormed m h) (hfit : Fits m h L) (hhead : HeadOk H role m out)
     (g : Bool) (gN : Nat) (hg : gN < GREASE_RANGE_END) (scripts : List (List Nat))
     (haw : Awaited (freshStream g) (callsOf (framesOf m h) gN scripts))
@@ -404,12 +419,31 @@ instance (f : FieldLine) : Decidable (RegularOk f) := by unfold RegularOk; infer
 instance (f : Qpack.Field) : Decidable (H3.Qpack.Lemmas.Encodable f) := by
   unfold H3.Qpack.Lemmas.Encodable; infer_instance
 instance (l : List FieldLine) : Decidable (FieldsEncodable l) := by unfold FieldsEncodable; infer_instance
+instance (l : List FieldLine) : Decidable (Holdable l) := by unfold Holdable; infer_instance
+
+/-- any number of values under one name can be held (and is delivered): the limit is on names -/
+example (k : Nat) : Holdable (List.replicate (k + 1) ([120], [49])) := by
+  have key : ∀ (k : Nat) (vs : List (List Nat)),
+      (fillFrom [([120], vs)] (List.replicate k ([120], [49]))).isSome = true := by
+    intro k
+    induction k with
+    | zero => intro vs; rfl
+    | succ k ih =>
+      intro vs
+      have h1 : ([([120], vs)] : HeaderMap).length < hmMaxEntries := by simp [hmMaxEntries]
+      simp only [List.replicate_succ, fillFrom, hmTryAppend, if_pos h1, hmAppend, if_true]
+      exact ih _
+  have h0 : ([] : HeaderMap).length < hmMaxEntries := by decide
+  simp only [Holdable, List.replicate_succ, fillFrom, hmTryAppend, if_pos h0, hmAppend]
+  exact key k _
 
 /-- the hypotheses of the theorems are satisfiable: `m₁` is well-formed, fits, its head survives -/
 theorem wf₁ : WellFormed m₁ h₁ where
   header := by decide +kernel
   regular := by decide +kernel
   trailersRegular := by intro t ht; cases ht; decide +kernel
+  holdable := by decide +kernel
+  trailersHoldable := by intro t ht; cases ht; decide +kernel
   encodable := by decide +kernel
   trailersEncodable := by intro t ht; cases ht; decide +kernel
   pieces := by
@@ -422,8 +456,6 @@ theorem wf₁ : WellFormed m₁ h₁ where
 theorem fits₁ : Fits m₁ h₁ 273 where
   size := by decide +kernel
   trailerSize := by intro t ht; cases ht; decide +kernel
-  count := by decide +kernel
-  trailerCount := by intro t ht; cases ht; decide +kernel
 
 theorem headOk₁ : HeadOk toy .server m₁ out₁ := by
   refine HeadOk.request m₁ GET ⟨some sHttps, some aCom, some slash⟩ none _ rfl ?_ (by decide)
@@ -434,7 +466,7 @@ theorem headOk₁ : HeadOk toy .server m₁ out₁ := by
 /-- the theorem applied: every script carrying `wire m₁` — here 5-byte chunks — delivers `want₁` -/
 example : deliver toy .server 273 (chunked 5 (wire m₁)) = want₁ := by
   obtain ⟨a, b, c, d⟩ := chunked_spec 5 (wire m₁)
-  exact C01_recv_of_wire_partial toy .server m₁ h₁ out₁ 273 wf₁ fits₁ headOk₁ none (by intro n h; cases h)
+  exact C01_recv_of_wire toy .server m₁ h₁ out₁ 273 wf₁ fits₁ headOk₁ none (by intro n h; cases h)
     _ a b c (by rw [d]; simp [streamBytes, greaseBytes])
 
 end examples
